@@ -14,6 +14,15 @@ from . import c06
 
 LEVEL = "other"
 
+# The reader's big `match` over token rules ends in `x => unreachable!("other rule: {:?}", x)`: that arm is unreachable
+# only while every alternative the meta-grammar can produce at that point has an arm of its own, in every feature
+# configuration - which is C07's ARMS rule (meta-grammar alternatives x reader arms), re-run here.
+DEPENDS = [
+    ("C07", {"only_rules": ["ARMS"],
+             "why": "a token the grammar accepts but the reader has no arm for reaches unreachable!() - a panic on a "
+                    "text that parses"}),
+]
+
 MANIFEST = {
     "technique": "error-discipline rule (fallible conversion results vs unwrap/expect, through receiver chains "
                  "and lets), constructor provenance, guard-dominance of count checks and of subtractions, "
